@@ -435,7 +435,10 @@ Status findSequencesOnDisk(FileSequences &seqs,
                     if (!status) {
                         return status;
                     }
-                    // Preserve the parsed base/frame/ext
+                    // Preserve the directory and the parsed base/frame/ext
+                    // (a directory name may hold padding characters, digits
+                    // and dots that the constructor reads differently)
+                    fs.setDirname(root);
                     fs.setBasename(match.base);
                     fs.setExt(match.ext);
                     if (match.range.empty()) {
